@@ -1098,6 +1098,10 @@ class MarkovChainMonteCarloMethod:
                     1,
                 )
                 for stage, _ in sampling_stages_pb:
+                    if stage.n_iter == 0:
+                        # A stage without iterations must not change anything - in
+                        # particular adapters with no updates must not be finalized
+                        continue
                     for chain_it in chain_iterators:
                         chain_it.sequence = range(stage.n_iter)
                     chain_states, adapter_states, exception = sample_chains_func(
